@@ -534,7 +534,10 @@ fn owned_from_text(text: &str, j: &J, route: u32) -> Result<(OwnedLazyValue, OM)
     }
 }
 
-fn check_raw_number<V: JsonValueTrait>(v: &V, j: &J, what: &str) -> Result<(), Violation> {
+/// `still_raw`: the handle is known to hold its number as raw text (every borrowed lazy value; an owned lazy
+/// value that is not a clone of a possibly loaded one): then the raw-number view must be there. Otherwise
+/// `None` is acceptable too (a parsed number keeps no literal, like the DOM by default).
+fn check_raw_number<V: JsonValueTrait>(v: &V, j: &J, still_raw: bool, what: &str) -> Result<(), Violation> {
     let rn = v.as_raw_number();
     match (j, rn) {
         (J::Num(lit), Some(r)) => {
@@ -543,6 +546,7 @@ fn check_raw_number<V: JsonValueTrait>(v: &V, j: &J, what: &str) -> Result<(), V
             }
             Ok(())
         }
+        (J::Num(lit), None) if still_raw => Err(Violation::new("mismatch/as_raw_number", format!("{}: as_raw_number = None on the raw number {:?}", what, lit))),
         (J::Num(_), None) => Ok(()), // the DOM only keeps raw numbers when asked to; None is what it says by default
         (_, Some(r)) => Err(Violation::new("mismatch/as_raw_number", format!("{}: as_raw_number = Some({:?}) on a {:?}; the DOM of the same text says None", what, r.as_str(), j.kind()))),
         (_, None) => Ok(()),
@@ -552,7 +556,7 @@ fn check_raw_number<V: JsonValueTrait>(v: &V, j: &J, what: &str) -> Result<(), V
 fn read_lazy(v: &LazyValue<'static>, m: &LM, what: &str) -> Result<(), Violation> {
     libcall("read lazy", || -> Result<(), Violation> {
         oracle::check_scalars(v, &m.j, what)?;
-        check_raw_number(v, &m.j, what)?;
+        check_raw_number(v, &m.j, true, what)?;
         if v.as_raw_str() != m.text {
             return Err(Violation::new("mismatch/as_raw_str", format!("{}: as_raw_str = {:?}, source span is {:?}", what, oracle::truncate(v.as_raw_str()), oracle::truncate(&m.text))));
         }
@@ -657,7 +661,7 @@ fn read_owned(v: &OwnedLazyValue, m: &OM, what: &str) -> Result<(), Violation> {
 fn read_owned_inner(v: &OwnedLazyValue, m: &OM, what: &str, depth: u32) -> Result<(), Violation> {
     let j = m.to_j();
     oracle::check_scalars(v, &j, what)?;
-    check_raw_number(v, &j, what)?;
+    check_raw_number(v, &j, matches!(m, OM::Raw { fuzzy: false, .. }), what)?;
     match &j {
         J::Arr(a) => {
             let arr = v.as_array().ok_or_else(|| Violation::new("mismatch/as_array", format!("{}: None on an array", what)))?;
